@@ -374,8 +374,25 @@ func checkCommitStructure(p *Prog, r *Roles, res *Result) {
 			res.und("C11-R2", short+".Commit", "-", "implementation not found")
 			continue
 		}
+		// Commit's region: Commit, its function literals, and the functions of the package that run only inside it
+		// (applyAndCommit, error translation helpers)
+		var region []*ssa.Function
+		inRegion := map[*ssa.Function]bool{}
+		for _, f := range p.AllFuncs {
+			if f.Pkg != commit.Pkg || f.Synthetic != "" {
+				continue
+			}
+			top := f
+			for top.Parent() != nil {
+				top = top.Parent()
+			}
+			if top == commit || p.onlyWithin(top, commit, 0) {
+				region = append(region, f)
+				inRegion[f] = true
+			}
+		}
 		var engCommits []ssa.CallInstruction
-		for _, f := range withAnon(commit) {
+		for _, f := range region {
 			for _, c := range callsIn(f) {
 				if isEngineCall(c, "Commit") {
 					engCommits = append(engCommits, c)
@@ -402,7 +419,7 @@ func checkCommitStructure(p *Prog, r *Roles, res *Result) {
 				for top.Parent() != nil {
 					top = top.Parent()
 				}
-				if top == commit || top.Signature.Recv() == nil || batchT == nil || !types.Identical(top.Signature.Recv().Type(), batchT) {
+				if top == commit || inRegion[f] || top.Signature.Recv() == nil || batchT == nil || !types.Identical(top.Signature.Recv().Type(), batchT) {
 					continue
 				}
 				for _, c := range callsIn(f) {
@@ -430,7 +447,7 @@ func checkCommitStructure(p *Prog, r *Roles, res *Result) {
 			ec := engCommits[0].(ssa.Instruction)
 			construct := short + ".Commit: operation error returns before the engine commit"
 			n, bad := 0, false
-			for _, b := range commit.Blocks {
+			for _, b := range ec.Parent().Blocks {
 				if ifOf(b) == nil {
 					continue
 				}
@@ -521,8 +538,64 @@ func checkCommitStructure(p *Prog, r *Roles, res *Result) {
 				}
 			}
 		}
+		// .. or an explicit one on every path on which Commit returns an error that is not known to be nil
+		explicit := false
+		if !found {
+			ei := errorResultIndex(commit.Signature)
+			rg := &fnRegion{root: commit, descend: func(g *ssa.Function) bool { return inRegion[g] }}
+			nRet := 0
+			missing, _, _ := rg.search(&frame{fn: commit}, commit.Blocks[0], 0, superOpts{
+				stop: func(i ssa.Instruction, _ *frame) bool {
+					c, ok := i.(ssa.CallInstruction)
+					return ok && isEngineCall(c, "Discard", "Rollback")
+				},
+				bad: func(i ssa.Instruction, fr *frame) bool {
+					ret, ok := i.(*ssa.Return)
+					if !ok || fr.parent != nil || ei < 0 {
+						return false
+					}
+					nRet++
+					return !isNilConst(resolve(ret.Results[ei]))
+				},
+				skipEdge: func(from *ssa.BasicBlock, si int, fr *frame) bool {
+					if fr.parent != nil || ifOf(from) == nil {
+						return false
+					}
+					// the edge on which the error that Commit is about to return is nil
+					cf := edgeFact(edge{from, si})
+					if cf.X == nil {
+						return false
+					}
+					x, y := cf.X, cf.Y
+					if isNilConst(x) {
+						x, y = y, x
+					}
+					if !isNilConst(y) || !((cf.Op == token.EQL && cf.Want) || (cf.Op == token.NEQ && !cf.Want)) {
+						return false
+					}
+					for _, b := range commit.Blocks {
+						if ret, ok := b.Instrs[len(b.Instrs)-1].(*ssa.Return); ok && resolve(ret.Results[ei]) == resolve(x) {
+							return true
+						}
+					}
+					return false
+				},
+			})
+			_ = nRet
+			nRollback := 0
+			for _, f := range region {
+				for _, c := range callsIn(f) {
+					if isEngineCall(c, "Discard", "Rollback") {
+						nRollback++
+					}
+				}
+			}
+			explicit = missing == nil && nRollback > 0
+		}
 		if found {
 			res.ok("C11-R2", construct, p.pos(commit.Pos()), "deferred Discard / Rollback")
+		} else if explicit {
+			res.ok("C11-R2", construct, p.pos(commit.Pos()), "explicit Rollback / Discard on every path that returns an error not known to be nil")
 		} else {
 			res.bad("C11-R2", construct, p.pos(commit.Pos()), "Commit does not discard / roll back the engine transaction on its error exits")
 		}
@@ -1168,10 +1241,13 @@ func checkNotFoundIdentity(p *Prog, r *Roles, res *Result, rule string) {
 			res.und(rule, construct, "-", "Get not found")
 			continue
 		}
-		scope := []*ssa.Function{get}
-		for _, c := range callsIn(get) {
-			if sc := c.Common().StaticCallee(); sc != nil && sc.Pkg == get.Pkg && sc.Blocks != nil {
-				scope = append(scope, sc)
+		// Get itself, its function literals (a body run inside a transaction helper) and the helpers it calls
+		scope := withAnon(get)
+		for _, g := range withAnon(get) {
+			for _, c := range callsIn(g) {
+				if sc := c.Common().StaticCallee(); sc != nil && sc.Pkg == get.Pkg && sc.Blocks != nil {
+					scope = append(scope, sc)
+				}
 			}
 		}
 		plain, wrapped := false, false
@@ -1680,7 +1756,11 @@ func checkAdapterErrorPreservation(p *Prog, r *Roles, res *Result, rule string) 
 		// one named exception: badger's stand-alone Del discards the error of Txn.Delete and returns the commit's.
 		// Txn.Delete fails only for keys that cannot have been stored either (empty, oversized, reserved prefix) or on
 		// a read-only / discarded transaction, which this freshly opened update transaction is not.
-		if strings.HasSuffix(name, "(*Txn).Delete") && funcName(c.Parent()) == "(*pkg/storage/badger.store).Del" {
+		top := c.Parent()
+		for top.Parent() != nil {
+			top = top.Parent()
+		}
+		if strings.HasSuffix(name, "(*Txn).Delete") && funcName(top) == "(*pkg/storage/badger.store).Del" {
 			return "", false
 		}
 		return name, true
